@@ -54,8 +54,9 @@ class _InMemoryConsumer(ConsumerT):
     async def finish(self) -> None:
         await asyncio.sleep(0)
         self._started = False
-        while self._queue.processing:
-            self._queue.put_back(self._queue.processing.pop())
+        for msg in [m for m, taker in self._queue.taken_by.items() if taker is self]:
+            self._queue.processing.discard(msg)
+            self._queue.put_back(msg)
         await asyncio.sleep(0)
 
     def __update_delayed(self) -> None:
